@@ -107,7 +107,7 @@ let build (scen : string list) : packed option =
               (fun s -> Printf.sprintf "wcur=%s rcur=%s" (string_of_z (f_wcur s)) (string_of_z (f_rcur s))),
               (fun s t -> match (f_thr s (nat_of_int t)).f_pc with
                  | FRLoad -> "rload" | FRChk -> "rchk" | FRWait -> "rwait" | FRBlocked -> "rblocked"
-                 | FWStore -> "wstore" | FWSeg3 | FWUnlock | FWSeg4 | FWWake -> "wpending" | FDone -> "done" | _ -> "other")))
+                 | FWStore -> if int_of_nat (f_thr s (nat_of_int t)).f_k = 1 then "wstore1" else "wstore" | FWSeg3 | FWUnlock | FWSeg4 | FWWake -> "wpending" | FDone -> "done" | _ -> "other")))
   | "chanm" :: cap :: wl :: rest ->
     let (r, w) = split_rw rest in
     let n = 1 + List.length w and capz = z_of_int (next_pow2 (int_of_string cap) 1) in
@@ -132,7 +132,7 @@ let build (scen : string list) : packed option =
               (fun s -> Printf.sprintf "cursor=%s" (string_of_z (g_cursor s))),
               (fun s t -> match (g_thr s (nat_of_int t)).g_pc with
                  | GRLoad -> "rload" | GRChk -> "rchk" | GRWait -> "rwait" | GRBlocked -> "rblocked"
-                 | GWStore -> "wstore" | GWSeg2 | GWClear | GWSeg3 | GWWake -> "wpending" | GDone -> "done" | _ -> "other")))
+                 | GWStore -> if int_of_nat (g_thr s (nat_of_int t)).g_k = 1 then "wstore1" else "wstore" | GWSeg2 | GWClear | GWSeg3 | GWWake -> "wpending" | GDone -> "done" | _ -> "other")))
   | "abq" :: cap :: rest ->
     let (r, w) = split_rw rest in
     let nc = List.length r in
@@ -183,6 +183,12 @@ let explore (Pk (step, st0, n, _, is_done, _, cls)) seed runs window =
     (* one run in three does not park anybody, so that sleepers do reach futex waits that would
        block -- those are the waits that can be made to return early *)
     let nopark = Random.int 3 = 0 in
+    (* another run in three parks a PRODUCER between its check (it has loaded the consumer's cursor /
+       count) and its store, lets the producers run ahead first so that a backlog builds up, and then
+       runs everybody else until nobody can move: the consumer drains the backlog and goes to sleep
+       inside the producer's check-to-store window *)
+    let wpark = (not nopark) && Random.int 2 = 0 in
+    let wvictim = ref (-1) and wdone = ref false in
     let enabled s t = step s (nat_of_int t) O <> None in
     let stop = ref false in
     while not !stop && !k < 3000 do
@@ -190,18 +196,35 @@ let explore (Pk (step, st0, n, _, is_done, _, cls)) seed runs window =
       let en = List.filter (enabled !st) (upto n) in
       if en = [] then stop := true else begin
         (* look for a thread to park *)
-        if !parked < 0 && not nopark then begin
+        if wpark && not !wdone && !wvictim < 0 then begin
+          (* prefer the producer's LAST store (nothing after it will make up for a missing wake-up) *)
+          let last = List.filter (fun t -> cls !st t = "wstore1") en in
+          let cands = List.filter (fun t -> cls !st t = "wstore") en in
+          if last <> [] && Random.int 4 > 0 then wvictim := List.nth last (Random.int (List.length last))
+          else if cands <> [] && Random.int 8 = 0 then wvictim := List.nth cands (Random.int (List.length cands))
+        end;
+        if !parked < 0 && not nopark && not wpark then begin
           let cands = List.filter (fun t -> let c = cls !st t in c = "rwait" || c = "rchk") en in
           if cands <> [] && Random.int 3 > 0 then (parked := List.nth cands (Random.int (List.length cands)); left := window)
         end;
+        let is_consumer t = (let c = cls !st t in c = "rload" || c = "rchk" || c = "rwait") in
         let pool =
+          if wpark && not !wdone && !wvictim >= 0 then begin
+            (* everybody but the parked producer, until nobody else can move *)
+            let others = List.filter (fun t -> t <> !wvictim) en in
+            if others = [] then (wdone := true; en) else others
+          end else if wpark && not !wdone then begin
+            (* before parking: let the producers run ahead of the consumers *)
+            let prods = List.filter (fun t -> not (is_consumer t)) en in
+            if prods <> [] && Random.int 10 > 0 then prods else en
+          end else
           if !parked >= 0 && !left > 0 then begin
             let others = List.filter (fun t -> t <> !parked) en in
             decr left;
             if others = [] then (parked := -1; en) else others
           end else (parked := -1; en) in
         (* prefer threads that are about to store / wake while somebody is parked *)
-        let pref = if !parked >= 0 then List.filter (fun t -> let c = cls !st t in c = "wstore" || c = "wpending") pool else [] in
+        let pref = if !parked >= 0 then List.filter (fun t -> let c = cls !st t in c = "wstore" || c = "wstore1" || c = "wpending") pool else [] in
         let pool = if pref <> [] && Random.int 4 > 0 then pref else pool in
         let t = List.nth pool (Random.int (List.length pool)) in
         (* the harness prints a thread's last "P" and its "X" under ONE scheduling decision *)
